@@ -240,4 +240,17 @@ var props = map[string]*propDef{
 			{Name: "ch.VerifC03Script", OnlyTier: "thorough", Thorough: map[string]int{"maxpackets": 2, "maxfail": 0, "symversion": 1}},
 		},
 	},
+	"C13": {
+		ID: "C13", Level: "model_checking", Rule: ruleDefault,
+		Assumptions: append([]string{
+			"Connect/Dial/handshake are run under the cooperative scheduler with a harness connection and dialer; the reference server puts a hello field on the wire iff both the client's and its own revision have it",
+			"time.Now is a concrete increasing clock; the hello's arrival instant is compared with the read deadline the client set",
+		}, baseAssumptions...),
+		Harnesses: []harnessDef{
+			{Name: "ch.VerifC13Handshake"},
+			{Name: "ch.VerifC13OldServer"},
+			{Name: "ch.VerifC13Failure"},
+			{Name: "ch.VerifC13Delay"},
+		},
+	},
 }
